@@ -407,7 +407,7 @@ func (m *MonValidators) AfterStep(nw *Network) {
 		if n.ResetEpochs > 0 && !m.IncludeReset {
 			continue
 		}
-		if n.ResetEpochs > 0 && n.InsertFailedStep >= 0 {
+		if n.unjudgedAfterReset() {
 			continue
 		}
 		app := n.App
